@@ -12,7 +12,7 @@ From BV Require Import Common.Base Common.Hash Common.Codec Common.Tx Common.P2P
 Theorem C18_layouts :
   hdr_pack = [LE U32] /\ hdr_unpack = [LE U32] /\ hdr_pad = [x00] /\ hdr_cmd_width = 12 /\ hdr_ck_len_write = 4 /\
   hdr_size = 24 /\ hdr_magic_len = 4 /\ hdr_cmd_slice = (4, 16) /\ hdr_cmd_split = [x00] /\ hdr_len_slice = (16, 20) /\
-  hdr_ck_slice = (20, 24) /\ hdr_body_lo = 24 /\ hdr_ck_len_read = 4 /\
+  hdr_ck_slice = (20, 24) /\ hdr_body_lo = 24 /\ hdr_ck_check = Some 4 /\
   (ver_quirk_from, ver_quirk_to, ver_addrfrom_min, ver_height_min, ver_relay_min, ver_relay_default) = (10300, 300, 106, 209, 70001, 1) /\
   CADDR_TIME_VERSION <= PROTO_VERSION /\ CADDR_PCHRESERVED = IPV4_COMPAT /\ IPV4_COMPAT = v4_mapped_prefix /\
   caddr_prefix_slice = (0, 12) /\ caddr_v4_slice = (12, 16) /\ u256vec_assert_len = 32 /\
